@@ -235,6 +235,51 @@ def check_two_receivers(res, kind, names_a, stream_a, names_b, stream_b):
 
 # ----------------------------------------------------------------------------- shards
 
+CONSUMER_OPS = ("new", "drop-oldest", "drop-newest", "feed")
+
+
+def run_consumers(res, kind, ops):
+    """One lifecycle of consumer queues (DistributorQueue children of the receiver, what new_dali_rx_queue() hands out):
+    every consumer alive at the end holds exactly the observed commands received since it was created, in order."""
+    from dali.driver import serial as S
+    p = S.DriverLubaRs232.LubaProtocol() if kind == "luba" else S.DriverSCIRS232.SCIRS232Protocol()
+    if kind == "luba":
+        T = luba_tokens()[0]
+        toks = [T["rx16"], T["rx-unknown16"]]
+    else:
+        T = sci_tokens()
+        toks = [T["unknown16"], T["edt"]]
+    alive = []          # [queue, expected observed items, birth number]
+    born = fed = 0
+    for op in list(ops) + ["feed", "feed"]:
+        if op == "new":
+            alive.append([S.DistributorQueue(p.queue_rx_dali), [], born])
+            born += 1
+        elif op == "drop-oldest":
+            if alive:
+                alive.pop(0)            # (the only reference: the queue object is freed here)
+        elif op == "drop-newest":
+            if alive:
+                alive.pop()
+        else:
+            data = toks[fed % 2]
+            fed += 1
+            exp = ref_items(kind, data)[0]["observed"]
+            p.data_received(data)
+            res["transitions"] += len(data)
+            for a in alive:
+                a[1].extend(exp)
+    for q, exp, n in alive:
+        got = []
+        while not q.empty():
+            c = q.get_nowait()
+            got.append(("observed", len(c.frame), c.frame.as_integer))
+        if got != exp:
+            add_violation(res, f"C19:{kind}:consumer-queue", f"{kind} consumer lifecycle {list(ops)} + 2 feeds: consumer number {n} (one of {len(alive)} alive) holds "
+                          f"{got}, the receiver observed {exp} since it was created", {"kind": kind, "consumer_ops": list(ops)})
+    return (len(alive), fed)
+
+
 def shards(tier):
     out = []
     T, trunc, lens, noise = luba_tokens()
@@ -268,6 +313,9 @@ def shards(tier):
     # long streams (several hundred bytes): the same item many times over, and alternations - nothing may pile up in the receiver
     out.append(("lubalong", tuple(red)))
     out.append(("scilong", tuple(sred)))
+    # every lifecycle of the consumer queues an application obtains from new_dali_rx_queue(), up to a depth
+    for kind in ("luba", "sci"):
+        out.append(("consumers", kind, 6 if tier == "quick" else 8))
     return out
 
 
@@ -286,6 +334,19 @@ def run_shard(shard):
 def _run(shard, res):
     k = shard[0]
     outs = set()
+    if k == "consumers":
+        _, kind, depth = shard
+        n = 0
+        for L in range(depth + 1):
+            for ops in itertools.product(CONSUMER_OPS, repeat=L):
+                outs.add(run_consumers(res, kind, ops))
+                n += 1
+        res["evaluations"] += n
+        res["traces"] = res.get("traces", 0) + n
+        for o in outs:
+            res["distinct"].add(("consumers", kind) + o)
+        sample(res, {"consumer_lifecycles": n, "depth": depth, "ops": list(CONSUMER_OPS), "receiver": kind})
+        return
     if k.startswith("luba"):
         T, trunc, lens, noise = luba_tokens()
         ALL = {}
@@ -394,7 +455,9 @@ def replay(case):
     loop = VLoop()
     loop.enter()
     try:
-        if "other" in case:
+        if "consumer_ops" in case:
+            run_consumers(res, case["kind"], case["consumer_ops"])
+        elif "other" in case:
             check_two_receivers(res, case["kind"], case["tokens"], bytes.fromhex(case["stream"]), case["other_tokens"], bytes.fromhex(case["other"]))
         else:
             check_stream(res, case["kind"], case["tokens"], bytes.fromhex(case["stream"]), two_cuts=len(case["stream"]) < 40)
